@@ -592,3 +592,392 @@ theorem isProperPrefix_irrefl (f : Path) : isProperPrefix f f = false := by
   | cons a as ih => simp [isProperPrefix, ih]
 
 end Ytk.Patch
+
+namespace Ytk.Patch
+open Ytk.Ptr
+
+/-! ## validity (sorted unique keys, no key ending in an index group) is preserved -/
+
+theorem valid_list {ys : List Node} (h : ∀ y ∈ ys, y.Valid) : (Node.list ys).Valid :=
+  ⟨.list (fun y hy => (h y hy).1), .list (fun y hy => (h y hy).2)⟩
+
+theorem valid_insert {kvs : AMap Node} {k : String} {v : Node} (h : (Node.cont kvs).Valid) (hv : v.Valid)
+    (hk : hasIdxSuffix k = false) : (Node.cont (AMap.insert kvs k v)).Valid := by
+  refine ⟨.cont (AMap.sorted_insert h.sorted k v) ?_, .cont ?_ ?_⟩
+  · intro p hp
+    rcases mem_insert hp with rfl | hp
+    · exact hv.1
+    · exact (h.of_cont_mem hp).1.1
+  · intro p hp
+    rcases mem_insert hp with rfl | hp
+    · exact hk
+    · exact (h.of_cont_mem hp).2
+  · intro p hp
+    rcases mem_insert hp with rfl | hp
+    · exact hv.2
+    · exact (h.of_cont_mem hp).1.2
+
+theorem valid_erase {kvs : AMap Node} (k : String) (h : (Node.cont kvs).Valid) :
+    (Node.cont (AMap.erase kvs k)).Valid := by
+  refine ⟨.cont (AMap.sorted_erase h.sorted k) ?_, .cont ?_ ?_⟩
+  · intro p hp; exact (h.of_cont_mem (mem_of_mem_erase hp)).1.1
+  · intro p hp; exact (h.of_cont_mem (mem_of_mem_erase hp)).2
+  · intro p hp; exact (h.of_cont_mem (mem_of_mem_erase hp)).1.2
+
+theorem stepRef_valid {d c : Node} {t : String} (h : d.Valid) (hs : stepRef d t = some c) : c.Valid := by
+  cases d with
+  | leaf v => simp [stepRef] at hs
+  | cont kvs => exact (h.of_cont_mem (AMap.mem_of_get? (by simpa [stepRef] using hs))).1
+  | list xs =>
+    simp only [stepRef] at hs
+    cases hci : canonIdx t with
+    | none => rw [hci] at hs; cases hs
+    | some i => rw [hci] at hs; exact h.of_list_mem (List.mem_of_getElem? hs)
+
+theorem getTok_valid (p : Path) : ∀ (d n : Node), d.Valid → getTok d p = some n → n.Valid := by
+  induction p with
+  | nil => intro d n h hg; simp [getTok] at hg; exact hg ▸ h
+  | cons t ts ih =>
+    intro d n hv h
+    rw [getTok_cons] at h
+    cases hs : stepRef d t with
+    | none => rw [hs] at h; cases h
+    | some c => rw [hs] at h; exact ih c n (stepRef_valid hv hs) h
+
+theorem addLast_valid {par par' v : Node} {t : String} (h : par.Valid) (hv : v.Valid)
+    (ht : hasIdxSuffix t = false) (ha : addLast par t v = some par') : par'.Valid := by
+  cases par with
+  | leaf s => simp [addLast] at ha
+  | cont kvs =>
+    simp only [addLast, Option.some.injEq] at ha
+    subst ha; exact valid_insert h hv ht
+  | list xs =>
+    simp only [addLast] at ha
+    cases hci : canonIdx t with
+    | none => rw [hci] at ha; cases ha
+    | some i =>
+      rw [hci] at ha
+      simp only [] at ha
+      split at ha
+      · cases ha
+        apply valid_list
+        intro y hy
+        simp only [insertAt, List.mem_append, List.mem_cons] at hy
+        rcases hy with hy | rfl | hy
+        · exact h.of_list_mem (List.mem_of_mem_take hy)
+        · exact hv
+        · exact h.of_list_mem (List.mem_of_mem_drop hy)
+      · cases ha
+
+theorem removeLast_valid {par par' : Node} {t : String} (h : par.Valid)
+    (ha : removeLast par t = some par') : par'.Valid := by
+  cases par with
+  | leaf s => simp [removeLast] at ha
+  | cont kvs =>
+    simp only [removeLast] at ha
+    split at ha
+    · cases ha; exact valid_erase t h
+    · cases ha
+  | list xs =>
+    simp only [removeLast] at ha
+    cases hci : canonIdx t with
+    | none => rw [hci] at ha; cases ha
+    | some i =>
+      rw [hci] at ha
+      simp only [] at ha
+      split at ha
+      · cases ha
+        exact valid_list (fun y hy => h.of_list_mem (List.mem_of_mem_eraseIdx hy))
+      · cases ha
+
+theorem replaceLast_valid {par par' v : Node} {t : String} (h : par.Valid) (hv : v.Valid)
+    (ht : hasIdxSuffix t = false) (ha : replaceLast par t v = some par') : par'.Valid := by
+  cases par with
+  | leaf s => simp [replaceLast] at ha
+  | cont kvs =>
+    simp only [replaceLast] at ha
+    split at ha
+    · cases ha; exact valid_insert h hv ht
+    · cases ha
+  | list xs =>
+    simp only [replaceLast] at ha
+    cases hci : canonIdx t with
+    | none => rw [hci] at ha; cases ha
+    | some i =>
+      rw [hci] at ha
+      simp only [] at ha
+      split at ha
+      · cases ha
+        apply valid_list
+        intro y hy
+        rcases List.mem_or_eq_of_mem_set hy with hy | rfl
+        · exact h.of_list_mem hy
+        · exact hv
+      · cases ha
+
+theorem modify_valid (f : Node → String → Option Node)
+    (hf : ∀ par par' t, par.Valid → hasIdxSuffix t = false → f par t = some par' → par'.Valid)
+    (p : Path) : ∀ (d d' : Node), d.Valid → (∀ t ∈ p, tokOk t = true) → modify f d p = some d' → d'.Valid := by
+  induction p with
+  | nil => intro d d' _ _ h; simp [modify] at h
+  | cons t ts ih =>
+    intro d d' hv hall h
+    have ht := tokOk_noSuffix (hall t (List.mem_cons_self ..))
+    cases ts with
+    | nil => exact hf d d' t hv ht (by simpa [modify] using h)
+    | cons t2 ts =>
+      have hrest : ∀ x ∈ t2 :: ts, tokOk x = true := fun x hx => hall x (List.mem_cons_of_mem _ hx)
+      cases d with
+      | leaf s => simp [modify] at h
+      | cont kvs =>
+        simp only [modify] at h
+        cases hc : AMap.get? kvs t with
+        | none => rw [hc] at h; cases h
+        | some c =>
+          rw [hc] at h
+          simp only [] at h
+          cases hm : modify f c (t2 :: ts) with
+          | none => rw [hm] at h; cases h
+          | some c' =>
+            rw [hm] at h
+            simp only [Option.map_some, Option.some.injEq] at h
+            subst h
+            have hcv : c.Valid := (hv.of_cont_mem (AMap.mem_of_get? hc)).1
+            exact valid_insert hv (ih c c' hcv hrest hm) ht
+      | list xs =>
+        simp only [modify] at h
+        cases hci : canonIdx t with
+        | none => rw [hci] at h; cases h
+        | some i =>
+          rw [hci] at h
+          simp only [] at h
+          cases hc : xs[i]? with
+          | none => rw [hc] at h; cases h
+          | some c =>
+            rw [hc] at h
+            simp only [] at h
+            cases hm : modify f c (t2 :: ts) with
+            | none => rw [hm] at h; cases h
+            | some c' =>
+              rw [hm] at h
+              simp only [Option.map_some, Option.some.injEq] at h
+              subst h
+              have hcv : c.Valid := hv.of_list_mem (List.mem_of_getElem? hc)
+              apply valid_list
+              intro y hy
+              rcases List.mem_or_eq_of_mem_set hy with hy | rfl
+              · exact hv.of_list_mem hy
+              · exact ih c _ hcv hrest hm
+
+theorem rAdd_valid {d d' v : Node} {p : Path} (hd : d.Valid) (hv : v.Valid) (h : ∀ t ∈ p, tokOk t = true)
+    (ha : rAdd d p v = some d') : d'.Valid :=
+  modify_valid _ (fun _ _ _ hp ht hx => addLast_valid hp hv ht hx) p d d' hd h ha
+
+theorem rRemove_valid {d d' : Node} {p : Path} (hd : d.Valid) (h : ∀ t ∈ p, tokOk t = true)
+    (ha : rRemove d p = some d') : d'.Valid :=
+  modify_valid _ (fun _ _ _ hp _ hx => removeLast_valid hp hx) p d d' hd h ha
+
+theorem rReplace_valid {d d' v : Node} {p : Path} (hd : d.Valid) (hv : v.Valid) (h : ∀ t ∈ p, tokOk t = true)
+    (ha : rReplace d p v = some d') : d'.Valid :=
+  modify_valid _ (fun _ _ _ hp ht hx => replaceLast_valid hp hv ht hx) p d d' hd h ha
+
+/-- what the theorems assume about one operation object -/
+def OpOk (o : OpObj) : Prop := inScope o = true ∧ ∀ v, o.value = some v → v.Valid
+
+theorem inScope_path {o : OpObj} {p : Path} (h : inScope o = true) (hp : o.path = some p) : safePath p = true := by
+  simp only [inScope, hp, Bool.and_eq_true] at h; exact h.1
+
+theorem inScope_frm {o : OpObj} {f : Path} (h : inScope o = true) (hf : o.frm = some f) : safePath f = true := by
+  simp only [inScope, hf, Bool.and_eq_true] at h; exact h.2
+
+theorem rfc6902_valid {o : OpObj} {d d' : Node} (ho : OpOk o) (hd : d.Valid)
+    (h : rfc6902 o d = some d') : d'.Valid := by
+  obtain ⟨hin, hval⟩ := ho
+  unfold rfc6902 at h
+  cases hp : o.path with
+  | none => rw [hp] at h; cases h
+  | some path =>
+    rw [hp] at h
+    have hsp := inScope_path hin hp
+    have htok := safePath_tokOk hsp
+    simp only [] at h
+    split at h
+    · cases hv : o.value with
+      | none => rw [hv] at h; cases h
+      | some v => rw [hv] at h; exact rAdd_valid hd (hval v hv) htok h
+    · split at h
+      · exact rRemove_valid hd htok h
+      · split at h
+        · cases hv : o.value with
+          | none => rw [hv] at h; cases h
+          | some v => rw [hv] at h; exact rReplace_valid hd (hval v hv) htok h
+        · split at h
+          · cases hf : o.frm with
+            | none => rw [hf] at h; cases h
+            | some f =>
+              rw [hf] at h
+              have hftok := safePath_tokOk (inScope_frm hin hf)
+              simp only [] at h
+              cases hg : getTok d f with
+              | none => rw [hg] at h; cases h
+              | some n =>
+                rw [hg] at h
+                simp only [] at h
+                split at h
+                · cases h
+                · cases hr : rRemove d f with
+                  | none => rw [hr] at h; cases h
+                  | some d1 =>
+                    rw [hr] at h
+                    exact rAdd_valid (rRemove_valid hd hftok hr) (getTok_valid f d n hd hg) htok h
+          · split at h
+            · cases hf : o.frm with
+              | none => rw [hf] at h; cases h
+              | some f =>
+                rw [hf] at h
+                simp only [] at h
+                cases hg : getTok d f with
+                | none => rw [hg] at h; cases h
+                | some n =>
+                  rw [hg] at h
+                  exact rAdd_valid hd (getTok_valid f d n hd hg) htok h
+            · split at h
+              · cases hv : o.value with
+                | none => rw [hv] at h; cases h
+                | some v =>
+                  rw [hv] at h
+                  simp only [] at h
+                  cases hg : getTok d path with
+                  | none => rw [hg] at h; cases h
+                  | some n =>
+                    rw [hg] at h
+                    simp only [] at h
+                    split at h
+                    · cases h; exact hd
+                    · cases h
+              · cases h
+
+end Ytk.Patch
+
+namespace Ytk.Patch
+open Ytk.Ptr
+
+/-! ## the whole of `patch.Do` -/
+
+theorem moveOrCopy_copy_refines {f path : Path} (root : Node) (hp : path ≠ [])
+    (h : ∀ t ∈ path, tokOk t = true) (hf : ∀ t ∈ f, tokOk t = true) :
+    moveOrCopy (some f) path root false =
+      ofSpec root (match getTok root f with | some n => rAdd root path n | none => none) := by
+  unfold moveOrCopy
+  simp only [eval_path root hf]
+  cases getTok root f with
+  | none => rfl
+  | some n =>
+    simp only [Bool.false_eq_true, if_false, clone_id]
+    exact doAdd_refines n root hp h
+
+theorem moveOrCopy_move_refines {f path : Path} (root : Node) (hwf : root.WF) (hp : path ≠ []) (hfp : f ≠ [])
+    (h : ∀ t ∈ path, tokOk t = true) (hf : ∀ t ∈ f, tokOk t = true) :
+    moveOrCopy (some f) path root true =
+      ofSpec root (match getTok root f with
+        | some n =>
+          if isProperPrefix f path then none
+          else
+            match rRemove root f with
+            | some d1 => rAdd d1 path n
+            | none => none
+        | none => none) := by
+  unfold moveOrCopy
+  simp only [eval_path root hf]
+  cases hg : getTok root f with
+  | none => rfl
+  | some n =>
+    obtain ⟨d1, hr, hback⟩ := rRemove_rAdd_same hwf hfp hf hg
+    simp only [if_true, hr]
+    by_cases hsame : f = path
+    · subst hsame
+      simp [isProperPrefix_irrefl, hback, ofSpec]
+    · simp only [if_neg hsame, properPrefix_eq]
+      by_cases hpre : isProperPrefix f path = true
+      · simp [hpre, ofSpec]
+      · simp only [hpre, Bool.false_eq_true, if_false]
+        rw [doRemove_refines root hfp hf, hr]
+        simp only [ofSpec]
+        rw [doAdd_refines n d1 hp h]
+        cases hadd : rAdd d1 path n with
+        | some d2 => simp [ofSpec]
+        | none =>
+          simp only [ofSpec]
+          rw [doAdd_refines n d1 hfp hf, hback]
+          rfl
+
+theorem doTest_refines {v : Node} {path : Path} (root : Node) (hv : v.Valid) (hd : root.Valid)
+    (h : ∀ t ∈ path, tokOk t = true) :
+    doTest (some v) path root =
+      ofSpec root (match getTok root path with
+        | some n => if n = v then some root else none
+        | none => none) := by
+  unfold doTest
+  simp only [eval_path root h]
+  cases hg : getTok root path with
+  | none => rfl
+  | some n =>
+    have hn := getTok_valid path root n hd hg
+    simp only []
+    by_cases he : n = v
+    · subst he; simp [equals_refl n hn, ofSpec]
+    · have : equals v n ≠ true := fun e => he ((equals_iff_eq hv hn).mp e).symm
+      simp [this, he, ofSpec]
+
+theorem patchDo_refines {o : OpObj} {d : Node} (ho : OpOk o) (hd : d.Valid) :
+    patchDo o d = ofSpec d (rfc6902 o d) := by
+  obtain ⟨hin, hval⟩ := ho
+  unfold patchDo rfc6902
+  cases hp : o.path with
+  | none => rfl
+  | some path =>
+    have hsp := inScope_path hin hp
+    have htok := safePath_tokOk hsp
+    have hne := safePath_ne_nil hsp
+    simp only []
+    split
+    · cases hv : o.value with
+      | none => simp [doAdd, ofSpec]
+      | some v => exact doAdd_refines v d hne htok
+    · split
+      · exact doRemove_refines d hne htok
+      · split
+        · cases hv : o.value with
+          | none => simp [doReplace, ofSpec]
+          | some v => exact doReplace_refines v d hne htok
+        · split
+          · cases hf : o.frm with
+            | none => simp [moveOrCopy, ofSpec]
+            | some f =>
+              have hsf := inScope_frm hin hf
+              exact moveOrCopy_move_refines d hd.1 hne (safePath_ne_nil hsf) htok (safePath_tokOk hsf)
+          · split
+            · cases hf : o.frm with
+              | none => simp [moveOrCopy, ofSpec]
+              | some f =>
+                exact moveOrCopy_copy_refines d hne htok (safePath_tokOk (inScope_frm hin hf))
+            · split
+              · cases hv : o.value with
+                | none => simp [doTest, ofSpec]
+                | some v => exact doTest_refines d (hval v hv) hd htok
+              · rfl
+
+theorem runPatch_eq_runRfc (ops : List OpObj) : ∀ (d : Node), d.Valid → (∀ o ∈ ops, OpOk o) →
+    runPatch ops d = runRfc ops d := by
+  induction ops with
+  | nil => intro d _ _; rfl
+  | cons o os ih =>
+    intro d hd hall
+    have ho := hall o (List.mem_cons_self ..)
+    have hrest : ∀ x ∈ os, OpOk x := fun x hx => hall x (List.mem_cons_of_mem _ hx)
+    simp only [runPatch, runRfc, patchDo_refines ho hd]
+    cases hr : rfc6902 o d with
+    | none => simp only [ofSpec]; rw [ih d hd hrest]
+    | some d' => simp only [ofSpec]; rw [ih d' (rfc6902_valid ho hd hr) hrest]
+
+end Ytk.Patch
